@@ -197,6 +197,60 @@ pub mod raw_body {
     }
 }
 
+/// A response whose success status is not 2xx (like the SSO redirect endpoints).
+pub mod redirect {
+    use http::header::{LOCATION, SET_COOKIE};
+    use ruma_common::{
+        api::{request, response, Metadata},
+        metadata,
+    };
+
+    pub const METADATA: Metadata = metadata! {
+        method: GET,
+        rate_limited: false,
+        authentication: None,
+        history: {
+            1.0 => "/_matrix/synth/redirect",
+        }
+    };
+
+    #[request]
+    pub struct Request {}
+
+    #[response(status = FOUND)]
+    pub struct Response {
+        #[ruma_api(header = LOCATION)]
+        pub location: String,
+        #[ruma_api(header = SET_COOKIE)]
+        pub cookie: Option<String>,
+    }
+}
+
+/// A response with a 2xx status other than 200 and a body.
+pub mod created {
+    use ruma_common::{
+        api::{request, response, Metadata},
+        metadata,
+    };
+
+    pub const METADATA: Metadata = metadata! {
+        method: POST,
+        rate_limited: false,
+        authentication: None,
+        history: {
+            1.0 => "/_matrix/synth/created",
+        }
+    };
+
+    #[request]
+    pub struct Request {}
+
+    #[response(status = CREATED)]
+    pub struct Response {
+        pub value: String,
+    }
+}
+
 pub fn metadata(name: &str) -> Option<Metadata> {
     Some(match name {
         "synth.all_kinds" => <all_kinds::Request as OutgoingRequest>::METADATA,
@@ -295,6 +349,16 @@ pub fn response(cmd: &Value) -> OpResult {
             data: s(a, "data")?.as_bytes().to_vec(),
         }),
         "synth.query_all" => response_cycle_from_value(query_all::Response {}),
+        "synth.redirect" => response_cycle_from_value(redirect::Response {
+            location: s(a, "location")?.to_owned(),
+            cookie: opt_s(a, "cookie").map(str::to_owned),
+        }),
+        "synth.created" => response_cycle_from_value(created::Response { value: s(a, "value")?.to_owned() }),
+        "real.sso_login" => response_cycle_from_value({
+            let mut r = ruma_client_api::session::sso_login::v3::Response::new(s(a, "location")?.to_owned());
+            r.cookie = opt_s(a, "cookie").map(str::to_owned);
+            r
+        }),
         x => Err(format!("harness: synthetic endpoint {x}")),
     }
 }
